@@ -27,6 +27,9 @@ type Program struct {
 	AllFuncs []*ssa.Function
 	funcIdx  map[string]*ssa.Function
 	Files    int
+	// fieldGetters: "pkg.Type.Field" -> getter method name, for getters whose
+	// whole body is "return recv.Field" (derived from the SSA, not a frozen list)
+	fieldGetters map[string]string
 }
 
 func repoDir() string {
@@ -112,6 +115,35 @@ func loadProgram(dir string, overlay map[string][]byte) (*Program, error) {
 		P.funcIdx[fn.String()] = fn
 	}
 	sort.Slice(P.AllFuncs, func(i, j int) bool { return P.AllFuncs[i].String() < P.AllFuncs[j].String() })
+	P.fieldGetters = map[string]string{}
+	for _, fn := range P.AllFuncs {
+		if fn.Signature.Recv() == nil || fn.Parent() != nil || len(fn.Params) != 1 || len(fn.Blocks) != 1 || !strings.HasPrefix(fn.Name(), "Get") {
+			continue
+		}
+		b := fn.Blocks[0]
+		ret, ok := b.Instrs[len(b.Instrs)-1].(*ssa.Return)
+		if !ok || len(ret.Results) != 1 {
+			continue
+		}
+		v := ret.Results[0]
+		// allow a conversion of the loaded field
+		if ct, ok := v.(*ssa.ChangeType); ok {
+			v = ct.X
+		}
+		ld, ok := v.(*ssa.UnOp)
+		if !ok || ld.Op != token.MUL {
+			continue
+		}
+		fa, ok := ld.X.(*ssa.FieldAddr)
+		if !ok || fa.X != fn.Params[0] {
+			continue
+		}
+		// nothing else but the load in the body
+		if len(b.Instrs) > 4 {
+			continue
+		}
+		P.fieldGetters[recvTypeName(fn)+"."+fieldNameOf(fa.X.Type(), fa.Field)] = fn.Name()
+	}
 	return P, nil
 }
 
@@ -276,6 +308,29 @@ func recvTypeName(fn *ssa.Function) string {
 		rt = p.Elem()
 	}
 	if n, ok := rt.(*types.Named); ok && n.Obj().Pkg() != nil {
+		return n.Obj().Pkg().Path() + "." + n.Obj().Name()
+	}
+	return ""
+}
+
+func fieldNameOf(t types.Type, i int) string {
+	if p, ok := t.Underlying().(*types.Pointer); ok {
+		t = p.Elem()
+	}
+	if s, ok := t.Underlying().(*types.Struct); ok && i < s.NumFields() {
+		return s.Field(i).Name()
+	}
+	return ""
+}
+
+func namedKey(t types.Type) string {
+	if p, ok := t.Underlying().(*types.Pointer); ok {
+		t = p.Elem()
+	}
+	if p, ok := t.(*types.Pointer); ok {
+		t = p.Elem()
+	}
+	if n, ok := t.(*types.Named); ok && n.Obj().Pkg() != nil {
 		return n.Obj().Pkg().Path() + "." + n.Obj().Name()
 	}
 	return ""
